@@ -10,12 +10,21 @@
   and on canonical renderings the action/goto tables, the defaulted states and the
   semantic actions agree with the intended reading of the grammar.
 
-  Not covered: token lists that are not canonical renderings — in particular predicates
-  relying on the precedence `or < and < not` or on associativity instead of parentheses,
-  redundant parentheses, integer-typed weights (pydantic turns them into floats, so no AST
-  with an integer weight is ever built), and the lexer (the statement starts from tokens).
+  Second part (`C07_parse_complete_minimal`): the same for the rendering with MINIMAL
+  parentheses (`Spec.tokensOfExperimentMin`, a precedence-climbing printer: parentheses only
+  around an `or` below `and` / `not` / on the right of `or`, and around an `and` below `not` /
+  on the right of `and`).  Reading such a text back to the tree that was printed needs the
+  tables to implement `or < and < not` and left associativity, so the way sly resolved the
+  shift/reduce conflicts of the predicate grammar inside the dumped action table is covered
+  by a theorem, for every well-formed AST, not by testing.
+
+  Not covered: token lists that are neither rendering — redundant parentheses (more than
+  the canonical rendering writes), integer-typed weights (pydantic turns them into floats,
+  so no AST with an integer weight is ever built), and the lexer (the statement starts from
+  tokens).
 -/
 import Pyab.Proofs.LRComplete
+import Pyab.Proofs.LRCompleteMin
 import Pyab.Properties.C06_parser
 namespace Pyab.Properties
 open Pyab Pyab.Spec
@@ -83,5 +92,179 @@ example : ¬ (⟨"e", none, none, .ret []⟩ : Experiment).WF := by decide
 
 example : (lrParse Generated.lrTables (tokensOfExperiment ⟨"e", none, none, .ret []⟩)).isOk = false := by
   decide +kernel
+
+/-! ### Minimal parentheses: precedence and associativity -/
+
+/-- **C07 (parser completeness on renderings with minimal parentheses).** Every well-formed
+    experiment AST, rendered with parentheses in its predicates only where the grammar needs
+    them (`tokensOfExperimentMin`: `or a b` prints `a@1 or b@2`, `and a b` prints
+    `a@2 and b@3`, `not a` prints `not a@3`, a comparison is an atom, and a sub-predicate whose
+    own level — `or` 1, `and` 2, `not` 3 — is below the context level is wrapped in `( … )`),
+    is parsed by the code's own LR tables back to exactly that AST.  So the tables implement
+    the declared precedence `or < and < not` and left associativity of `and` / `or`: a text
+    without the parentheses is read as the tree the precedence rules say, for every nesting
+    and in every position a predicate can occur (`if`, `elif`, inside parentheses, under
+    `not`, on either side of `and` / `or`), including comparisons whose left term is a tuple
+    and therefore starts with `(` like a parenthesised predicate. -/
+theorem C07_parse_complete_minimal (e : Experiment) (hwf : e.WF) :
+    lrParse Generated.lrTables (tokensOfExperimentMin e) = .ok e :=
+  Proofs.LRC.lrParse_tokensOfMin e hwf
+
+/-- the minimal rendering of a well-formed AST is a sentence of the documented grammar -/
+theorem C07_minimal_tokens_derive (e : Experiment) (hwf : e.WF) :
+    Spec.Derives Spec.documentedProds "header" ((tokensOfExperimentMin e).map (·.kind)) :=
+  C06_parse_sound _ e (C07_parse_complete_minimal e hwf)
+
+/-- the minimal rendering is injective on well-formed ASTs: the parentheses it keeps are
+    enough to tell any two trees apart -/
+theorem C07_tokensOfMin_injective (e e' : Experiment) (hwf : e.WF) (hwf' : e'.WF)
+    (h : tokensOfExperimentMin e = tokensOfExperimentMin e') : e = e' := by
+  have h1 := C07_parse_complete_minimal e hwf
+  have h2 := C07_parse_complete_minimal e' hwf'
+  rw [h, h2] at h1
+  exact (Except.ok.inj h1).symm
+
+/-- `def e { if p { return "a" weighted 1.0 } }` -/
+def C07m_exp (p : Pred) : Experiment :=
+  ⟨"e", none, none, .ifte p (.ret [⟨.str "a", .f (.fin 1 0)⟩]) .none⟩
+
+/-- the same experiment as an explicit token list, the predicate given as tokens -/
+def C07m_toks (ptoks : List Token) : List Token :=
+  [tk "KW_DEF" "def", ⟨"ID", .raw "e"⟩, tk "LBRACE" "{", tk "KW_IF" "if"] ++ ptoks ++
+    [tk "LBRACE" "{", tk "KW_RETURN" "return", ⟨"STRING_LITERAL", .str "a"⟩,
+     tk "KW_WEIGHTED" "weighted", ⟨"NON_NEG_FLOAT", .float (.fin 1 0)⟩, tk "RBRACE" "}",
+     tk "RBRACE" "}"]
+
+/-- `a == 1`, `b < 2`, `c != 3`, `(1, 2) == x`: trees … -/
+def C07m_a : Pred := .cmp (.ident "a") .eq (.int 1)
+def C07m_b : Pred := .cmp (.ident "b") .lt (.int 2)
+def C07m_c : Pred := .cmp (.ident "c") .ne (.int 3)
+def C07m_t : Pred := .cmp (.tuple [.int 1, .int 2]) .eq (.ident "x")
+/-- … and tokens -/
+def C07m_A : List Token := [⟨"ID", .raw "a"⟩, tk "KW_EQ" "==", ⟨"NON_NEG_INTEGER", .int 1⟩]
+def C07m_B : List Token := [⟨"ID", .raw "b"⟩, tk "KW_LT" "<", ⟨"NON_NEG_INTEGER", .int 2⟩]
+def C07m_C : List Token := [⟨"ID", .raw "c"⟩, tk "KW_NE" "!=", ⟨"NON_NEG_INTEGER", .int 3⟩]
+def C07m_T : List Token := [tk "LPAREN" "(", ⟨"NON_NEG_INTEGER", .int 1⟩, tk "COMMA" ",",
+  ⟨"NON_NEG_INTEGER", .int 2⟩, tk "RPAREN" ")", tk "KW_EQ" "==", ⟨"ID", .raw "x"⟩]
+def C07m_OR : List Token := [tk "KW_OR" "or"]
+def C07m_AND : List Token := [tk "KW_AND" "and"]
+def C07m_NOT : List Token := [tk "KW_NOT" "not"]
+def C07m_LP : List Token := [tk "LPAREN" "("]
+def C07m_RP : List Token := [tk "RPAREN" ")"]
+
+/-- the explicit token lists below ARE the minimal renderings: here on token kinds, and in
+    every parse example below the explicit list is unified with `tokensOfExperimentMin` of
+    the tree when the theorem is applied -/
+example : (tokensOfPredMin (.and C07m_a (.or C07m_b C07m_c))).map (·.kind) =
+    ["ID", "KW_EQ", "NON_NEG_INTEGER", "KW_AND", "LPAREN", "ID", "KW_LT", "NON_NEG_INTEGER",
+     "KW_OR", "ID", "KW_NE", "NON_NEG_INTEGER", "RPAREN"] := by decide
+
+example : tokensOfExperimentMin (C07m_exp (.and C07m_a (.or C07m_b C07m_c))) =
+    C07m_toks (C07m_A ++ C07m_AND ++ C07m_LP ++ C07m_B ++ C07m_OR ++ C07m_C ++ C07m_RP) := rfl
+
+/-- left associativity: `a or b or c` is `(a or b) or c` -/
+example : lrParse Generated.lrTables (C07m_toks (C07m_A ++ C07m_OR ++ C07m_B ++ C07m_OR ++ C07m_C))
+    = .ok (C07m_exp (.or (.or C07m_a C07m_b) C07m_c)) :=
+  C07_parse_complete_minimal (C07m_exp (.or (.or C07m_a C07m_b) C07m_c)) (by decide)
+
+/-- … and the other association needs its parentheses: `a or ( b or c )` -/
+example : lrParse Generated.lrTables
+    (C07m_toks (C07m_A ++ C07m_OR ++ C07m_LP ++ C07m_B ++ C07m_OR ++ C07m_C ++ C07m_RP))
+    = .ok (C07m_exp (.or C07m_a (.or C07m_b C07m_c))) :=
+  C07_parse_complete_minimal (C07m_exp (.or C07m_a (.or C07m_b C07m_c))) (by decide)
+
+/-- `a and b and c` is `(a and b) and c` -/
+example : lrParse Generated.lrTables (C07m_toks (C07m_A ++ C07m_AND ++ C07m_B ++ C07m_AND ++ C07m_C))
+    = .ok (C07m_exp (.and (.and C07m_a C07m_b) C07m_c)) :=
+  C07_parse_complete_minimal (C07m_exp (.and (.and C07m_a C07m_b) C07m_c)) (by decide)
+
+/-- `a and ( b and c )` -/
+example : lrParse Generated.lrTables
+    (C07m_toks (C07m_A ++ C07m_AND ++ C07m_LP ++ C07m_B ++ C07m_AND ++ C07m_C ++ C07m_RP))
+    = .ok (C07m_exp (.and C07m_a (.and C07m_b C07m_c))) :=
+  C07_parse_complete_minimal (C07m_exp (.and C07m_a (.and C07m_b C07m_c))) (by decide)
+
+/-- `and` binds tighter than `or`, on the right: `a or b and c` is `a or (b and c)` -/
+example : lrParse Generated.lrTables (C07m_toks (C07m_A ++ C07m_OR ++ C07m_B ++ C07m_AND ++ C07m_C))
+    = .ok (C07m_exp (.or C07m_a (.and C07m_b C07m_c))) :=
+  C07_parse_complete_minimal (C07m_exp (.or C07m_a (.and C07m_b C07m_c))) (by decide)
+
+/-- … and on the left: `a and b or c` is `(a and b) or c` -/
+example : lrParse Generated.lrTables (C07m_toks (C07m_A ++ C07m_AND ++ C07m_B ++ C07m_OR ++ C07m_C))
+    = .ok (C07m_exp (.or (.and C07m_a C07m_b) C07m_c)) :=
+  C07_parse_complete_minimal (C07m_exp (.or (.and C07m_a C07m_b) C07m_c)) (by decide)
+
+/-- an `or` below an `and` keeps its parentheses: `( a or b ) and c` -/
+example : lrParse Generated.lrTables
+    (C07m_toks (C07m_LP ++ C07m_A ++ C07m_OR ++ C07m_B ++ C07m_RP ++ C07m_AND ++ C07m_C))
+    = .ok (C07m_exp (.and (.or C07m_a C07m_b) C07m_c)) :=
+  C07_parse_complete_minimal (C07m_exp (.and (.or C07m_a C07m_b) C07m_c)) (by decide)
+
+/-- `a and ( b or c )` -/
+example : lrParse Generated.lrTables
+    (C07m_toks (C07m_A ++ C07m_AND ++ C07m_LP ++ C07m_B ++ C07m_OR ++ C07m_C ++ C07m_RP))
+    = .ok (C07m_exp (.and C07m_a (.or C07m_b C07m_c))) :=
+  C07_parse_complete_minimal (C07m_exp (.and C07m_a (.or C07m_b C07m_c))) (by decide)
+
+/-- **the parentheses are needed where the printer puts them**: the text of the previous
+    example without them, `a and b or c`, is accepted too but is a DIFFERENT tree, `(a and b)
+    or c` — so `C07_parse_complete_minimal` is not vacuous about precedence -/
+example : lrParse Generated.lrTables (C07m_toks (C07m_A ++ C07m_AND ++ C07m_B ++ C07m_OR ++ C07m_C))
+    ≠ .ok (C07m_exp (.and C07m_a (.or C07m_b C07m_c))) := by
+  have h : lrParse Generated.lrTables (C07m_toks (C07m_A ++ C07m_AND ++ C07m_B ++ C07m_OR ++ C07m_C))
+      = .ok (C07m_exp (.or (.and C07m_a C07m_b) C07m_c)) :=
+    C07_parse_complete_minimal (C07m_exp (.or (.and C07m_a C07m_b) C07m_c)) (by decide)
+  rw [h]
+  intro hc
+  have hp := congrArg (fun r => match r with
+    | Except.ok (⟨_, _, _, .ifte (.or _ _) _ _⟩ : Experiment) => true
+    | _ => false) hc
+  exact absurd hp (by decide)
+
+/-- `not` binds tightest: `not a and b` is `(not a) and b` -/
+example : lrParse Generated.lrTables (C07m_toks (C07m_NOT ++ C07m_A ++ C07m_AND ++ C07m_B))
+    = .ok (C07m_exp (.and (.not C07m_a) C07m_b)) :=
+  C07_parse_complete_minimal (C07m_exp (.and (.not C07m_a) C07m_b)) (by decide)
+
+/-- `not a or b` is `(not a) or b` -/
+example : lrParse Generated.lrTables (C07m_toks (C07m_NOT ++ C07m_A ++ C07m_OR ++ C07m_B))
+    = .ok (C07m_exp (.or (.not C07m_a) C07m_b)) :=
+  C07_parse_complete_minimal (C07m_exp (.or (.not C07m_a) C07m_b)) (by decide)
+
+/-- `not ( a and b )` keeps its parentheses -/
+example : lrParse Generated.lrTables
+    (C07m_toks (C07m_NOT ++ C07m_LP ++ C07m_A ++ C07m_AND ++ C07m_B ++ C07m_RP))
+    = .ok (C07m_exp (.not (.and C07m_a C07m_b))) :=
+  C07_parse_complete_minimal (C07m_exp (.not (.and C07m_a C07m_b))) (by decide)
+
+/-- `not not a` needs none; `a and not b` neither -/
+example : lrParse Generated.lrTables (C07m_toks (C07m_NOT ++ C07m_NOT ++ C07m_A))
+    = .ok (C07m_exp (.not (.not C07m_a))) :=
+  C07_parse_complete_minimal (C07m_exp (.not (.not C07m_a))) (by decide)
+
+example : lrParse Generated.lrTables (C07m_toks (C07m_A ++ C07m_AND ++ C07m_NOT ++ C07m_B))
+    = .ok (C07m_exp (.and C07m_a (.not C07m_b))) :=
+  C07_parse_complete_minimal (C07m_exp (.and C07m_a (.not C07m_b))) (by decide)
+
+/-- a comparison with a tuple on the left starts with `(` like a parenthesised predicate:
+    `( 1 , 2 ) == x and a == 1` at the start of the predicate, and
+    `( ( 1 , 2 ) == x or a == 1 ) and not ( 1 , 2 ) == x` -/
+example : lrParse Generated.lrTables (C07m_toks (C07m_T ++ C07m_AND ++ C07m_A))
+    = .ok (C07m_exp (.and C07m_t C07m_a)) :=
+  C07_parse_complete_minimal (C07m_exp (.and C07m_t C07m_a)) (by decide)
+
+example : lrParse Generated.lrTables
+    (C07m_toks (C07m_LP ++ C07m_T ++ C07m_OR ++ C07m_A ++ C07m_RP ++ C07m_AND ++ C07m_NOT ++ C07m_T))
+    = .ok (C07m_exp (.and (.or C07m_t C07m_a) (.not C07m_t))) :=
+  C07_parse_complete_minimal (C07m_exp (.and (.or C07m_t C07m_a) (.not C07m_t))) (by decide)
+
+/-- nested three deep: `not ( not a and ( b or not c ) ) or a and b and c` -/
+example : lrParse Generated.lrTables
+    (C07m_toks (C07m_NOT ++ C07m_LP ++ C07m_NOT ++ C07m_A ++ C07m_AND ++ C07m_LP ++ C07m_B ++ C07m_OR ++
+      C07m_NOT ++ C07m_C ++ C07m_RP ++ C07m_RP ++ C07m_OR ++ C07m_A ++ C07m_AND ++ C07m_B ++ C07m_AND ++ C07m_C))
+    = .ok (C07m_exp (.or (.not (.and (.not C07m_a) (.or C07m_b (.not C07m_c))))
+        (.and (.and C07m_a C07m_b) C07m_c))) :=
+  C07_parse_complete_minimal (C07m_exp (.or (.not (.and (.not C07m_a) (.or C07m_b (.not C07m_c))))
+    (.and (.and C07m_a C07m_b) C07m_c))) (by decide)
 
 end Pyab.Properties
